@@ -86,6 +86,7 @@ type Exec struct {
 	views                map[int]*viewInfo
 	curSt                *State
 	finiteInputs         []*smt.Term
+	lastCallResult       *Val
 	hintDiv              map[int]int // division-hint hypothesis -> id of the div term it is about
 	divRest              map[[2]int]*smt.Term
 }
